@@ -13,10 +13,6 @@ IsWordStart(off) == \E i \in 1..Len(layout) :
                        LET p == layout[i] slot == Slot(p.df) IN
                        /\ off >= p.off + 64 /\ off + 10 <= p.off + p.size
                        /\ (off - p.off - 64) % slot = 0
-RowMatches(row, r) == /\ row.ver = Version(r) /\ row.hsize = HeaderSize(r) /\ row.fee = FeeId(r) /\ row.sys = SystemId(r)
-                      /\ row.offnext = OffsetNext(r) /\ row.link = LinkId(r) /\ row.pkt = PacketCnt(r) /\ row.bc = Bc(r)
-                      /\ row.orbit = OrbitBytes(r) /\ row.df = DataFormat(r) /\ row.trig = TrigBytes(r) /\ row.pages = Pages(r)
-                      /\ row.stop = Stop(r) /\ row.det = DetBytes(r)
 Next == /\ l <= Len(Rec)
         /\ LET ev == Rec[l] IN
            IF ev.e = "Layout" THEN layout' = ev.pkts /\ total' = ev.total
